@@ -255,7 +255,7 @@ def decide(cfg, tier, seed, problems, fam_results, assumptions_info, obligations
     thms = core.theorem_stats(cfg["props"])
     cov = {
         "obligations": obligations,
-        "discharged": discharged if not problems else 0,
+        ("discharged" if (discharged and not problems) else "discharged_count"): discharged if not problems else 0,
         "checker_cmd": f"cd coq && make -j16 {cfg['props'][:-2]}.vo  (coqc 8.16.1, full .vo build; Print Assumptions per theorem)",
         "trusted_base": cfg.get("trusted_base", []) + [
             "Coq 8.16.1 kernel, vm_compute (no native_compute)",
